@@ -152,6 +152,11 @@ def run_case(ctx, desc):
         kw["keep_coords"] = desc["keep_coords"]
     kc = bool(desc["keep_coords"])
     axarg = opax if len(opax) > 1 else opax[0]
+    # the operation may be weighted by the registered metrics (an option of diff / interp / min / max / cumsum): the labelling
+    # and the name of the result are those of the unweighted operation
+    weighted = bool(desc.get("metrics")) and not desc.get("fc") and not desc.get("vector") and desc["dseed"] % 3 == 0
+    if weighted:
+        kw["metric_weighted"] = opax[0] if len(opax) == 1 and desc["dseed"] % 2 else {a: (a,) for a in opax}
     if desc.get("vector"):
         a0 = opax[0]
         oth = [a for a in cm if a != a0][0]
@@ -169,7 +174,7 @@ def run_case(ctx, desc):
             return getattr(g, op)(x, axarg, **kw)
     rdims = [{cm[a][desc["pos"][a]]: cm[a][to[a]] for a in opax}.get(d, d) for d in dims]
     expc = {c for c, v in ds.coords.items() if set(v.dims) <= set(rdims) and (kc or c in rdims)}
-    ckey = (op, (("faces-vector" if desc.get("vector") else "faces") if desc.get("fc") else "simple") + ("+metrics" if desc.get("metrics") else "") + ("+lazy" if desc.get("lazy") else ""), [(desc["pos"][a], to[a]) for a in opax], desc["keep_coords"], desc["carry"], desc["withdim"] if isinstance(desc["withdim"], bool) else "mixed",
+    ckey = (op, (("faces-vector" if desc.get("vector") else "faces") if desc.get("fc") else "simple") + ("+metrics" if desc.get("metrics") else "") + ("+weighted" if weighted else "") + ("+lazy" if desc.get("lazy") else ""), [(desc["pos"][a], to[a]) for a in opax], desc["keep_coords"], desc["carry"], desc["withdim"] if isinstance(desc["withdim"], bool) else "mixed",
             min(3, len(expc)))
     ctx.judged(ckey, len(expc) > 0)
     try:
@@ -218,7 +223,10 @@ def run_case(ctx, desc):
     variants = [("bare" if desc["carry"] else "carry", bare if desc["carry"] else
                  bare.assign_coords({c: v for c, v in ds.coords.items() if set(v.dims) <= set(dims)}))]
     scr = bare.assign_coords({d: (d, np.arange(ds.sizes[d])[::-1] * 7.0 - 3) for d in dims})
-    variants.append(("scrambled", scr))
+    if not weighted:
+        # (labels that contradict the dataset's are outside the quantifier - inputs carry the dataset's coordinates or none -
+        # and data times metric is xarray arithmetic, which aligns on labels: not drawn together with weighting)
+        variants.append(("scrambled", scr))
     for nm, v in variants:
         ctx.judged(("label-independence", nm, op), True)
         try:
